@@ -541,7 +541,7 @@ def rule_step_value(chk, tree, order):
             chk.decide(inst not in badx, 'dt-adapt-override', inst, node=ex, file=INT, func='_get_explicit_dt_adapt', detail_bad=badx.get(inst, ''), detail_ok=text)
 
 
-def rule_fallback(chk):
+def rule_fallback(chk, with_clamp=True):
     """Solver._compute_timestep, per feasible path with path-local names substituted: a non-adaptive run uses the undamped fixed step; an adaptive serial run returns what the
     integrator proposes - called with (undamped step, cfl) - or the undamped step when that is None; in parallel None becomes a large number before the global reduction"""
     from verif_static import paths as PT
@@ -602,6 +602,13 @@ def rule_fallback(chk):
     for inst, text in (('arguments', '(undamped_dt, self.cfl)'), ('none-keeps-fixed-step', 'dt = undamped_dt'), ('non-adaptive-uses-fixed-step', 'else: dt = undamped_dt'),
                        ('none-never-returned', 'every path tests for None')):
         chk.decide(inst not in bad, 'fallback-to-fixed-step', inst, node=fn, file=SOL, func='_compute_timestep', detail_bad=bad.get(inst, ''), detail_ok=text)
+    # the fixed step the run falls back on is the nominal one: a step shortened to land on an output time is saved first (rule shared with C10)
+    if with_clamp:
+        import importlib.util
+        spec10 = importlib.util.spec_from_file_location('c10mod', os.path.join(os.path.dirname(os.path.abspath(__file__)), 'c10.py'))
+        c10 = importlib.util.module_from_spec(spec10)
+        spec10.loader.exec_module(c10)
+        c10.rule_clamp(chk, scls)
     # the first step, too, is derived from criteria that have been evaluated: the initial acceleration precedes the first _get_timestep()
     sv = M.find_func(scls, 'solve')
     g = C.build_cfg(sv)
